@@ -31,6 +31,12 @@ def build_seed(path: str) -> None:
     t.append_records(tables.rows([3, 4]))
 
 
+def build_empty(path: str) -> None:
+    import datashard as ds
+
+    ds.create_table(path, schema=tables.std_schema())
+
+
 def do_read(t: Any, api: str) -> Any:
     if api == "scan":
         return reader.canon_rows(t.scan())
@@ -67,7 +73,7 @@ class Exec:
         with inst, GlobalPatch() as gp:
             blobs = inst.blobs()
             tv0 = reader.read_table(blobs)
-            seed_files = tv0.current().files
+            seed_files = tv0.current().files if tv0.current() is not None else ["data/none.parquet"]
             sched = Scheduler(strategy, seed=seed, max_steps=3000)
             flips = FlipLog(sched)
             clog = ClientLog(sched)
@@ -306,6 +312,11 @@ class C02(Check):
                 for sh in range(8):
                     yield {"mode": "dfs", "readers": [api], "writers": [w], "topology": topo, "backend": be, "k": 2,
                            "shard": sh, "nshards": 8, "nreads": 1 if be == "s3" else 2}
+        # readers racing the FIRST commit of an empty table
+        for api in READ_APIS:
+            for w in ("append", "multi"):
+                yield {"mode": "dfs", "readers": [api], "writers": [w], "topology": "separate", "backend": "local",
+                       "k": 1, "shard": 0, "nshards": 1, "initial": "empty"}
         # a reader on the handle of a writer whose commit fails, while another handle commits
         for api in (["scan", "row_count", "scan_batches"] if tier == "quick" else READ_APIS):
             for w0 in ("failed_commit", "rollback"):
@@ -328,7 +339,7 @@ class C02(Check):
         try:
             with Scratch("c02") as d:
                 tmpl = Template(case["backend"], str(d))
-                tmpl.build(build_seed)
+                tmpl.build(build_empty if case.get("initial") == "empty" else build_seed)
                 ex = Exec(case, tmpl, ip)
                 if case.get("_replay_schedule") is not None and case["mode"] == "dfs":
                     dev = [tuple(x) for x in case["_replay_schedule"]]
